@@ -189,6 +189,12 @@ impl FromStr for Id {
             return Err(DecodeIdError::OddNumberOfCharacters);
         }
 
+        // Only ASCII hex digits are valid; this also guarantees that slicing below
+        // never splits a multi-byte character, and rejects signs accepted by `from_str_radix`.
+        if !s.bytes().all(|b| b.is_ascii_hexdigit()) {
+            return Err(DecodeIdError::InvalidHexCharacter(s.into()));
+        }
+
         let mut bytes = Vec::with_capacity(s.len() / 2);
 
         for i in 0..s.len() / 2 {
